@@ -182,8 +182,17 @@ PROPS["C01"] = A("cases are seeded timed plans over 3-5 real Serf nodes with ful
 for _p in ("C06", "C07", "C28", "C34"):
     PROPS[_p]["replay"] = "exact (recorded goroutine schedule; select choice, map order and timer-goroutine identity are derived from the case seed)"
 PROPS["C25"]["selftest_tolerance"] = 0.0
-PROPS["C25"]["replay_attempts"] = 6  # the slow-client race depends on Go's random select choice (DESIGN 10.1)
-PROPS["C25"]["replay"] = "exact, except the slow-client race whose manifestation depends on Go's random select choice (reproduces with probability 2/3 per round; the driver retries up to 6 times)"
+PROPS["C25"]["replay_attempts"] = 6  # part A: the slow-client race depends on Go's random select choice (DESIGN 10.1)
+PROPS["C25"]["replay"] = "part B exact (recorded goroutine schedule); part A exact, except the slow-client race whose manifestation depends on Go's random select choice in the un-instrumented build (reproduces with probability 2/3 per round; the driver retries up to 6 times)"
+# C25 has two parts: A (engine E, plain build, free-running goroutines: request interleavings on one
+# connection, overflow, timing of replies around the deadline) and B (engine B over the instrumented
+# agent package: the agent's event fan-out loop against subscriptions / stops / hang-ups on other
+# connections, and a query stream's goroutine against replies, deadline and a stalled client, with the
+# goroutine schedule and every select choice decided by the simulator).
+PROPS["C25"]["parts"] = [{"wprop": "C25", "build": "plain", "frac": 0.5}, {"wprop": "C25B", "build": "inst", "frac": 0.5}]
+PROPS["C25"]["engine"] = "E agent/IPC simulator (part A) + B yield scheduler over the agent and IPC server (part B)"
+PROPS["C25"]["rule"] += "; part B: 1-3 streams subscribed beforehand, 0-2 queries, then three concurrent tasks (user events fired through the agent; subscribe/stop/hang-up/ordinary commands on a second connection; replies, client stall/resume and sleeps around the deadlines) under the yield scheduler"
+PROPS["C25"]["quick"].update({"runs": 3000, "budget_s": 90})
 PROPS["C01"]["replay_attempts"] = 3
 PROPS["C01"]["quick"].update({"batch": 4, "wd_s": 300})
 PROPS["C01"]["thorough"].update({"batch": 16, "wd_s": 300})
